@@ -12,6 +12,10 @@ pub broadcast axiom fn axiom_bytes_ext(a: Bytes, b: Bytes)
     ensures #[trigger] bv(a) == #[trigger] bv(b) ==> a == b;
 pub assume_specification [<Bytes as Clone>::clone] (b: &Bytes) -> (r: Bytes)
     ensures r == *b;
+pub assume_specification [Bytes::is_empty] (b: &Bytes) -> (r: bool)
+    ensures r == (bv(*b).len() == 0);
+pub assume_specification [Bytes::len] (b: &Bytes) -> (r: usize)
+    ensures r == bv(*b).len();
 
 #[verifier::external_type_specification]
 #[verifier::external_body]
@@ -375,6 +379,10 @@ impl AtomicCell<bool> {
 }
 impl core::fmt::Debug for AtomicCell<bool> { #[verifier::external_body] fn fmt(&self, f: &mut core::fmt::Formatter<'_>) -> core::fmt::Result { unimplemented!() } }
 
+/// the map a storage engine denotes in a given World (ghost; the engine-specific definition is given next to the engine)
+pub trait KvView { spec fn kv_map(&self, w: &World) -> Map<Bytes, Bytes>; }
+pub open spec fn lookup(m: Map<Bytes, Bytes>, key: Bytes) -> Option<Bytes> { if m.contains_key(key) { Some(m[key]) } else { None::<Bytes> } }
+
 /// what a lock / pool hands out satisfies its invariant w.r.t. the current World; every operation on the
 /// protected object re-establishes it (rely / guarantee; the guarantee half is what the contracts prove)
 pub trait SharedInv { spec fn shared_inv(&self, w: &World) -> bool; }
@@ -391,10 +399,14 @@ impl<'a, T> core::ops::DerefMut for MutexGuard<'a, T> {
     { &mut *self.v }
 }
 impl<T: SharedInv> Mutex<T> {
-    /// parking_lot::Mutex::lock: blocks until the lock is free, never poisons
+    /// the protected value (sequential reading: whoever holds the lock sees the value the previous holder left)
+    pub uninterp spec fn view(&self) -> T;
+    /// parking_lot::Mutex::lock: blocks until the lock is free, never poisons.  R-interior: `&self` is read as `&mut self`; the
+    /// guard lends out exactly the protected value, and what it holds when it is dropped is the protected value afterwards
     #[verifier::external_body]
-    pub fn lock<'a>(&'a self, Tracked(w): Tracked<&mut World>) -> (g: MutexGuard<'a, T>)
-        ensures *final(w) == *old(w), mut_ref_current(g.v).shared_inv(final(w))
+    pub fn lock<'a>(&'a mut self, Tracked(w): Tracked<&mut World>) -> (g: MutexGuard<'a, T>)
+        ensures *final(w) == *old(w), mut_ref_current(g.v).shared_inv(final(w)),
+                mut_ref_current(g.v) == old(self)@, final(self)@ == mut_ref_future(g.v)
     { unimplemented!() }
 }
 impl<T> core::fmt::Debug for Mutex<T> { #[verifier::external_body] fn fmt(&self, f: &mut core::fmt::Formatter<'_>) -> core::fmt::Result { unimplemented!() } }
@@ -404,11 +416,14 @@ impl<T> core::fmt::Debug for Mutex<T> { #[verifier::external_body] fn fmt(&self,
 #[verifier::reject_recursive_types(T)]
 pub struct ArrayQueue<T> { t: core::marker::PhantomData<T> }
 impl<T: SharedInv> ArrayQueue<T> {
+    /// `t` is one of the objects this pool was filled with (and hands out again)
+    pub uninterp spec fn issued(&self, t: T) -> bool;
     #[verifier::external_body]
     pub fn pop(&self, Tracked(w): Tracked<&mut World>) -> (r: Option<T>)
         ensures final(w).data == old(w).data, final(w).hint == old(w).hint, final(w).ever == old(w).ever, final(w).pool_cap == old(w).pool_cap,
                 r is None ==> final(w).pool_free == old(w).pool_free,
-                r matches Some(t) ==> old(w).pool_free >= 1 && final(w).pool_free == old(w).pool_free - 1 && t.shared_inv(final(w)),
+                // (an ArrayQueue never holds more than its capacity)
+                r matches Some(t) ==> old(w).pool_free >= 1 && old(w).pool_free <= old(w).pool_cap && final(w).pool_free == old(w).pool_free - 1 && t.shared_inv(final(w)) && self.issued(t),
     { unimplemented!() }
     #[verifier::external_body]
     pub fn push(&self, t: T, Tracked(w): Tracked<&mut World>) -> (r: Result<(), T>)
